@@ -39,6 +39,9 @@ Definition erckey (a : N) : N := 1000 + a.          (* GetERC20Key(a, position) 
 Definition is_erckey (k : N) : bool := 1000 <=? k.
 Definition ftkey : N := 900.                        (* "f:" ++ name, for the one unbound token name used *)
 Definition ripemd : N := 3.                         (* transition.go: var ripemd *)
+(* the 20 bytes of that variable: common.StringToAddress("00..03" (40 digits)) keeps the last 20 ASCII
+   characters of the string, so the exempted address is 0x3030..3033, not 0x00..03 (id 13 of the harness) *)
+Definition ripemd_bytes : bytes := repeat 48 19 ++ [51].
 Definition zerohash : N := 99.
 
 Definition nilb (v : bytes) : bool := match v with [] => true | _ => false end.
